@@ -130,6 +130,10 @@ def obligations(tier):
     out = [kernels.K3(tier)]
     for S in pdu.all_specs():
         shapes = S.shapes(tier)
+        if S.name == "ReadDeviceInformationResponse" and tier == "quick":
+            # the object list that fills the 253-byte PDU exactly (246 object bytes): the budget boundary of encode();
+            # placed first so that the noacc.* pick (last shape) is unchanged
+            shapes = [((0, 244),)] + list(shapes)
         for shape in shapes:
             key = S.key(shape)
             contracts = ("bits",) if needs_bits(S) else ()
